@@ -22,6 +22,13 @@ Theorem C09_store_truthful : forall (A : Type) (f : key -> A) kpl rr latent batc
 Proof. exact GridProofs.store_truthful. Qed.
 Print Assumptions C09_store_truthful.
 
+(* the store is single-valued: never two entries for one (fidelity, coordinate) key *)
+Theorem C09_store_single_valued : forall (A : Type) (f : key -> A) kpl rr latent batches,
+  let r := run_history f [] kpl rr latent batches in
+  NoDup (map fst (fst r)) /\ forall k v w, In (k, v) (fst r) -> In (k, w) (fst r) -> v = w.
+Proof. exact GridProofs.store_single_valued. Qed.
+Print Assumptions C09_store_single_valued.
+
 (* after a batch every coordinate of every index of the batch has stored data at that index's fidelity *)
 Theorem C09_requested_covered : forall (A : Type) (f : key -> A) store kpl rr latent indices alpha beta c,
   In (alpha, beta) indices -> In c (grid_coords kpl rr latent beta) ->
